@@ -327,7 +327,7 @@ def check(prop, tier, seed, t0):
             confirmed = r['confirmed']
         elif res['kind'] == 'engine':
             extra = dict(engine=res.get('engine'), native=o.get('native'))
-            confirmed = bool(o.get('native', {}).get('confirmed'))
+            confirmed = bool((o.get('native') or {}).get('confirmed'))
         path = write_replay(prop, res, o, extra)
         n_viol += 1
         line = 'VIOLATION property=%s replay=%s' % (prop, path)
